@@ -102,12 +102,14 @@ def _worker(job):
     return out
 
 
-def run_cases(comp_name, seed, n, params, explicit=None, chunk=None):
+def run_cases(comp_name, seed, n, params, explicit=None, chunk=None, inproc=False):
     """runs n generated cases (or the explicit list) over NPROC workers; returns list of reports"""
     if explicit is not None:
         n = len(explicit)
     if n == 0:
         return []
+    if inproc and explicit is not None:          # (shrinking: many tiny runs; no pool start-up each time)
+        return _worker((comp_name, seed, list(range(n)), params, explicit))
     chunk = chunk or max(1, min(250, (n + NPROC - 1) // NPROC))
     jobs = []
     for st in range(0, n, chunk):
